@@ -17,12 +17,26 @@ use vh::gen::{self, ParamSpec};
 use vh::rng::{mix, Rng};
 use vh::solve::{self, Cfg, Outcome, Prepared};
 
-fn small_game(rng: &mut Rng, case: u64) -> (String, vh::tree::HNode) {
-    if case % 3 == 2 {
+fn small_game(rng: &mut Rng, case: u64, only_wmf: bool) -> (String, vh::tree::HNode) {
+    if case % 4 == 2 || only_wmf {
+        // lock-ordering shape: each player's single infoset lies above the other's on some paths
+        // and below it on others; enough chance outcomes for the subtrees to be separate tasks
+        let (m, n) = (rng.range(4, 9), rng.range(2, 3));
+        return (format!("who_moves_first(outcomes={},actions={})", m, n), gen::who_moves_first(rng, m, n));
+    }
+    if case % 4 == 3 {
+        // distinct nodes of one infoset with identical continuations
+        let c = rng.range(2, 4);
+        return (format!("hidden_irrelevant_move(subgames={})", c), gen::hidden_irrelevant_move(rng, c));
+    }
+    if case % 4 == 1 {
         // contention shape: every move hidden, so one infoset sits below several frontier nodes
         for _ in 0..50 {
             let mut par = gen::GenParams::random(rng, 0);
             par.hide_rate = 1.0;
+            par.tick_rate = 0.0;
+            par.p_chance = *rng.pick(&[0.1, 0.25, 0.4]);
+            par.p_shared_chance = 1.0;
             par.p_term = 0.0;
             par.max_actions = rng.range(2, 3);
             par.max_depth = rng.range(2, 3);
@@ -63,7 +77,7 @@ fn main() {
     let (mut held, mut inconclusive, mut visits, mut draws) = (0u64, 0u64, 0u64, 0u64);
     for case in 0..cases {
         let mut rng = Rng::for_case(seed, &format!("miri-{}", prop), case);
-        let (desc, tree) = small_game(&mut rng, case);
+        let (desc, tree) = small_game(&mut rng, case, args.get(4).map(|s| s == "wmf").unwrap_or(false));
         let prep = match Prepared::new(&tree) {
             Ok(p) => p,
             Err(e) => {
